@@ -354,7 +354,14 @@ def check(prop, tier, seed):
     broken = []
     if not ok_tr:
         broken.append("translator: " + tr_msg)
+    untranslatable = [l.split("UNTRANSLATABLE", 1)[1].strip() for l in tr_msg.splitlines() if "UNTRANSLATABLE" in l]
     pr = prove(prop, thorough)
+    if pr["failed"] and untranslatable:
+        # a function left the translated subset: its definition is missing from Generated/, so the equations that mention
+        # it — and this property's theorems, if they depend on them — no longer check
+        pr["failed"] = [f + "  [source no longer translatable: " + "; ".join(untranslatable)[:600] + "]" for f in pr["failed"]]
+    for u in untranslatable:
+        notes.append("not translatable on this run (obligations depending on it fail closed): " + u[:300])
     broken += pr["failed"]
 
     profiles = cfg["profiles"][tier]
@@ -417,8 +424,11 @@ def check(prop, tier, seed):
             all_nes += nes
             if r["crashed"]:
                 crashed.append(r)
-            lines = [l for l in r["transcript"].splitlines() if l and l[0] not in "@#"]
-            for l in lines:
+            # distinct-recipe statistics and samples are taken from a bounded prefix of each shard's transcript: hashing
+            # tens of millions of lines in Python dominated the run time of an intensified check on a changed tree
+            head = r["transcript"][:4_000_000]
+            lines = [l for l in head.splitlines()[:-1] if l and l[0] not in "@#"]
+            for l in lines[:40000]:
                 distinct.add(hashlib.blake2b(l.split(" => ")[0].encode(), digest_size=8).digest())
             if lines and len(samples) < 6:
                 samples.append(lines[len(lines) // 2][:300])
@@ -439,17 +449,26 @@ def check(prop, tier, seed):
     forbid = cfg.get("forbid", [])
     if forbid:
         nforb = 0
+        have = set((id(x["_r"]), x["line"]) for x in all_nes)
+        pat = re.compile(r"^.* => (?:.* )?(?:%s)(?: .*)?$" % "|".join(re.escape(t) for t in forbid), re.M)
         for r in results:
-            for i, l in enumerate(r["transcript"].splitlines()):
-                if " => " not in l:
-                    continue
+            text = r["transcript"]
+            if not any(t in text for t in forbid):
+                continue                                    # the common case: nothing forbidden anywhere in this shard
+            for mm in pat.finditer(text):
+                l = mm.group(0)
                 out = l.split(" => ", 1)[1].split()
-                if any(t in out for t in forbid):
-                    ne = dict(line=i + 1, kind="IMPL_NE_SPEC", recipe=l.split(" => ")[0], impl=l.split(" => ", 1)[1], spec="(no %s)" % "/".join(forbid),
-                              profile=r["profile"], _r=r)
-                    if not any(x["line"] == ne["line"] and x["_r"] is r for x in all_nes):
-                        all_nes.append(ne)
-                    nforb += 1
+                if not any(t in out for t in forbid):
+                    continue
+                nforb += 1
+                if nforb > 200:
+                    continue                                # counted, but only the first 200 become reportable lines
+                lineno = text.count("\n", 0, mm.start()) + 1
+                if (id(r), lineno) in have:
+                    continue
+                have.add((id(r), lineno))
+                all_nes.append(dict(line=lineno, kind="IMPL_NE_SPEC", recipe=l.split(" => ")[0], impl=l.split(" => ", 1)[1],
+                                    spec="(no %s)" % "/".join(forbid), profile=r["profile"], _r=r))
         stats["forbidden_outcomes"] = nforb
 
     # three-way verdicts
